@@ -82,12 +82,63 @@ type buildOut struct {
 	dir    string
 	worker string
 	race   bool
+	// regenWorker is set when the .y grammar of a committed generated parser
+	// no longer produces the committed .go file: a second worker linked
+	// against the regenerated parser (the next "go generate" would ship it).
+	regenWorker string
+	regenWhat   []string
+}
+
+var grammarProps = map[string]bool{"C02": true, "C03": true, "C04": true, "C05": true, "C15": true}
+
+func normGenerated(raw []byte) string {
+	var b strings.Builder
+	for _, l := range strings.Split(string(raw), "\n") {
+		if strings.HasPrefix(l, "//line") || strings.HasPrefix(l, "// Code generated") {
+			continue
+		}
+		b.WriteString(l)
+		b.WriteString("\n")
+	}
+	return b.String()
 }
 
 func build(id, tier string, race bool) buildOut {
+	bo := buildOne(id, tier, race, nil, "")
+	if !grammarProps[id] {
+		return bo
+	}
+	regen := map[string]string{}
+	for _, g := range [][3]string{{"xpath/grammars/expr", "xpath", "expr"}, {"xpath/grammars/path_eval", "path_eval", "pathEval"}} {
+		y := filepath.Join(repoRoot, g[0], g[1]+".y")
+		committed := filepath.Join(repoRoot, g[0], g[1]+".go")
+		out := filepath.Join(bo.dir, "regen-"+g[1]+".go")
+		cmd := exec.Command(filepath.Join(verifRoot, "bin", "goyacc"), "-o", out, "-p", g[2], "-v", filepath.Join(bo.dir, "y.output"), y)
+		cmd.Dir = bo.dir
+		if o, err := cmd.CombinedOutput(); err != nil {
+			inconclusive("property=%s goyacc failed on %s: %v %s", id, y, err, core.Trunc(string(o), 400))
+		}
+		a, _ := os.ReadFile(out)
+		b, _ := os.ReadFile(committed)
+		if normGenerated(a) != normGenerated(b) {
+			regen[committed] = out
+			bo.regenWhat = append(bo.regenWhat, g[0]+"/"+g[1]+".y")
+		}
+	}
+	if len(regen) > 0 {
+		r := buildOne(id, tier, race, regen, "-regen")
+		bo.regenWorker = r.worker
+	}
+	return bo
+}
+
+func buildOne(id, tier string, race bool, extraOverlay map[string]string, suffix string) buildOut {
 	dir := filepath.Join(verifRoot, ".gen", fmt.Sprintf("%s-%s-%d", id, tier, os.Getpid()))
 	os.MkdirAll(dir, 0o755)
 	overlay := map[string]string{}
+	for k, v := range extraOverlay {
+		overlay[k] = v
+	}
 	lr := filepath.Join(repoRoot, "xpath/grammars/leafref/leafref.go")
 	if _, err := os.Stat(lr); err != nil {
 		gen := filepath.Join(dir, "leafref.go")
@@ -114,9 +165,9 @@ func build(id, tier string, race bool) buildOut {
 		}
 	}
 	ov, _ := json.Marshal(map[string]interface{}{"Replace": overlay})
-	ovPath := filepath.Join(dir, "overlay.json")
+	ovPath := filepath.Join(dir, "overlay"+suffix+".json")
 	os.WriteFile(ovPath, ov, 0o644)
-	worker := filepath.Join(dir, "vworker")
+	worker := filepath.Join(dir, "vworker"+suffix)
 	args := []string{"build", "-tags", "verif", "-overlay", ovPath, "-o", worker}
 	if race {
 		args = append(args, "-race")
@@ -509,6 +560,38 @@ func run(id, tier string) int {
 		}(i, c)
 	}
 	wg.Wait()
+	// second pass against the regenerated parser(s), when a grammar file changed
+	var regenFails []core.Failure
+	var regenInfra []string
+	if bo.regenWorker != "" {
+		fmt.Printf("NOTE property=%s the grammar %v no longer generates the committed parser: running a second pass with the regenerated parser (variant=regenerated)\n", id, bo.regenWhat)
+		bo2 := bo
+		bo2.worker = bo.regenWorker
+		res2 := make([]chunkResult, len(chunks))
+		for i, c := range chunks {
+			wg.Add(1)
+			go func(i int, c chunk) {
+				defer wg.Done()
+				sem <- struct{}{}
+				defer func() { <-sem }()
+				res2[i] = runRange(bo2, m, tier, seed, c.from, c.to, fmt.Sprintf("r%d", i))
+			}(i, c)
+		}
+		wg.Wait()
+		for _, r := range res2 {
+			regenInfra = append(regenInfra, r.infra...)
+			for _, f := range r.crashes {
+				f.Class += "@variant=regenerated"
+				regenFails = append(regenFails, f)
+			}
+			for _, b := range r.blocks {
+				for _, f := range b.Fails {
+					f.Class += "@variant=regenerated"
+					regenFails = append(regenFails, f)
+				}
+			}
+		}
+	}
 
 	// ---- merge
 	keys := map[uint64]struct{}{}
@@ -558,6 +641,21 @@ func run(id, tier string) int {
 			}
 			fails = append(fails, b.Fails...)
 		}
+	}
+	// failures of the regenerated-parser pass that the committed parser does not show
+	{
+		have := map[string]bool{}
+		for _, f := range fails {
+			have[f.Class] = true
+		}
+		for _, f := range regenFails {
+			base := strings.TrimSuffix(f.Class, "@variant=regenerated")
+			if _, isKnown := known[base]; isKnown || have[base] {
+				continue
+			}
+			fails = append(fails, f)
+		}
+		infra = append(infra, regenInfra...)
 	}
 	// race reports → failures
 	raceDistinct := map[string]string{}
